@@ -65,6 +65,13 @@ func (plugin *RetryPlugin) OnResponse(
 			}
 		}
 
+		// No attempts left (or none configured, e.g. `attempts: 0`):
+		// never ask for a retry, and forget the sequence.
+		if retryState.attemptsLeft < 1 {
+			plugin.cache.Del(onResponse.SequenceID)
+			return &actions.NoOpAction{}, nil
+		}
+
 		lunarRetryAfterValue := fmt.Sprint(retryState.nextCooldownSeconds)
 		action := actions.ModifyResponseAction{
 			HeadersToSet: map[string]string{
